@@ -174,6 +174,9 @@ pub enum RngKind {
     Counter(u64),
     /// `None::<CounterRng>` — behaves like `emit::Empty`: every draw fails
     Empty,
+    /// non-repeating and SEQUENTIAL: k-th 64-bit draw = seed + k (skipping 0) -- successive draws differ in their low
+    /// bits only, like a counting test rng; "distinct as long as the random source does not repeat" holds for it too
+    Sequential(u64),
 }
 
 /// The ambient context the runtime is built with (`ctxts.rs`).
